@@ -1,0 +1,34 @@
+//go:build verif
+
+// Copyright IBM Corp. 2013, 2026
+// SPDX-License-Identifier: MPL-2.0
+
+package serf
+
+// This file only exists under the `verif` build tag. It exposes constructors
+// for the unexported event coalescers so that an external runtime monitor can
+// drive them with exact control over the flush points.
+
+// VerifCoalescer is the exported view of the internal coalescer interface.
+type VerifCoalescer interface {
+	Handle(Event) bool
+	Coalesce(Event)
+	Flush(outChan chan<- Event)
+}
+
+// VerifNewMemberCoalescer returns a fresh member event coalescer, constructed
+// exactly as Create does.
+func VerifNewMemberCoalescer() VerifCoalescer {
+	return &memberEventCoalescer{
+		lastEvents:   make(map[string]EventType),
+		latestEvents: make(map[string]coalesceEvent),
+	}
+}
+
+// VerifNewUserCoalescer returns a fresh user event coalescer, constructed
+// exactly as Create does.
+func VerifNewUserCoalescer() VerifCoalescer {
+	return &userEventCoalescer{
+		events: make(map[string]*latestUserEvents),
+	}
+}
